@@ -160,6 +160,11 @@ pub fn relabel_with<'a, H: HashFunction, D: SetDataset>(
                 "RDFC-1.0 does not support blank node as predicate".to_string(),
             ));
         }
+        if !quad.p().is_iri() {
+            return Err(C14nError::Unsupported(
+                "RDFC-1.0 requires predicates to be IRIs".to_string(),
+            ));
+        }
         for component in iter_spog(quad.spog()) {
             if component.is_triple() || component.is_variable() {
                 return Err(C14nError::Unsupported(
